@@ -57,6 +57,10 @@ CLAIMED["C46"] = dict(engine="E1", technique="data-structure invariant over ghos
     text="Invariant proof over all histories and interleavings (given atomic semaphore operations): the constructor, lock, unlock, the destructor run at normal process exit and the guard's constructor/destructor each preserve 'value + units held == 1' from every admissible state, "
          "so at most one process is inside a guarded section and the semaphore never carries more units than it was created with; lock returns as the only holder; a normally exiting process leaves the value as found. Violations are replayed natively on the real MFrontLock.cxx (semaphore value before/after child processes).",
     note=TB_E1 + " Kernel atomicity and the POSIX semantics of sem_open/sem_wait/sem_post/sem_close are assumed contracts; abnormal termination inside a critical section, the Windows mutex branch and leftovers of earlier defective runs are not covered; 'the lock is used only through the guard' is a supporting static fact (grep).")
+CLAIMED["C30"] = dict(engine="E1", technique="CBMC function contracts + loop contracts on the extracted text of ProcessManager::setProcessExitStatus / sigChildHandler / wait / execute, with a per-process representation invariant over ghost kernel state; every order of child exit, SIGCHLD handler and waitpid enters through the nondeterministic POSIX waitpid stub, which may run the extracted handler first; the libc W* helpers are the real C file of /repo",
+    text="Proof for all 2^32 wait statuses and all sequential orders of child exit, handler and waitpid (handler before, inside via EINTR, or after the blocking waitpid; child reaped by either): setProcessExitStatus records exit value or signal death exactly as the kernel status says; the handler keeps every registered process record consistent; "
+         "wait returns only once the child is reaped and the recorded status is the child's; execute succeeds exactly when the child exited with status 0. True parallel execution of the handler on another thread (data race, mutex) is not modelled; createProcess/pipe plumbing is a stub.",
+    note=TB_E1 + " waitpid/closeProcessFiles/findProcess/createProcess are assumed-contract stubs; a process's pid is its identity (no pid reuse); at most 16 registered processes in the ghost arrays; glibc's WIFSIGNALED narrowing conversion is exempt from --conversion-check.")
 
 NOT_APPLICABLE = {
     "C03": "floating-point tolerance statement about iterative eigen-solvers (Jacobi/QL/Cardano with cos/acos); no contract within reach of CBMC-C or the real-arithmetic VC generator expresses it",
